@@ -52,6 +52,17 @@ def concatWritten : List Call → Bytes
 def fresh (n : Nat) (func fd : Bool) (m : Mode) : State :=
   { hasFunc := func, hasFd := fd, bufLen := n, mode := m }
 
+/-- Non-vacuity: an admissible history with a straddling write, a flush, a change of the buffer size while
+    idle, a mode change, a formatted write and a teardown — and something still pending in the middle. -/
+example : ∃ st' mid,
+    Admissible (fresh 4 true false { started := true })
+      [.printn [1, 2, 3, 4, 5, 6, 0] 6, .flush, .setbuf 3, .ctl .altscreen true, .title [65, 66, 0], .teardown] ∧
+    run (fresh 4 true false { started := true }) [.printn [1, 2, 3, 4, 5, 6, 0] 6] = .ok mid ∧ mid.buf = [5, 6] ∧
+    run (fresh 4 true false { started := true })
+      [.printn [1, 2, 3, 4, 5, 6, 0] 6, .flush, .setbuf 3, .ctl .altscreen true, .title [65, 66, 0], .teardown] = .ok st' ∧
+    st'.buf = [] ∧ st'.out.length = 11 :=
+  ⟨_, _, admissibleB_sound _ _ (by decide), rfl, rfl, rfl, by decide, by decide⟩
+
 /-- The statement of DESIGN.md §7 C11.  For every buffer size `n` (0 = none), either output method, and every
     sequence of writes and flushes: `concat delivered ++ pending = concat written`; every delivered chunk goes
     to the output method and, when `n > 0`, is non-empty and at most `n` bytes; and the fill level is `< n`
@@ -190,6 +201,10 @@ theorem chunk_bound_call (st st' : State) (o : Op) (hwf : WF st) (h : step st o 
     ∃ new, st'.out = st.out ++ new ∧ ∀ c ∈ new, ChunkOK st.bufLen (sink st') c :=
   step_chunks hwf h
 
+/-- Non-vacuity: 2 bytes pending in a buffer of 4, a write of 7: two full chunks go out, 1 byte stays. -/
+example : ∃ st', step { (fresh 4 false true {}) with buf := [1, 2] } (.printn [3, 4, 5, 6, 7, 8, 9, 0] 7) = .ok st' ∧
+    st'.out = [.data .fd [1, 2, 3, 4], .data .fd [5, 6, 7, 8]] ∧ st'.buf = [9] := ⟨_, rfl, rfl, rfl⟩
+
 /-- A whole history with the buffer size fixed. -/
 theorem chunk_bound_history (st st' : State) (ops : List Op) (hwf : WF st) (hns : NoSetbuf ops)
     (h : run st ops = .ok st') :
@@ -237,6 +252,16 @@ theorem start_drains (st st' : State) (hns : st.mode.started = false)
   · exact key (preFunc st) (by rw [(preFunc_facts st).2.2.1]; exact hns) h
   · exact key { st with hasFd := true } hns h
 
+/-- Non-vacuity of the three: something is pending and the mode makes the driver write on the way out. -/
+example : ∃ a b, step { (fresh 16 true false { started := true, altscreen := true }) with buf := [1, 2, 3] } .teardown = .ok a ∧
+    step { (fresh 16 true false { started := true, altscreen := true }) with buf := [1, 2, 3] } .destroy = .ok b ∧
+    a.buf = [] ∧ b.buf = [] ∧ a.out.length = 1 ∧ b.out.length = 2 ∧
+    stream a.out = [1, 2, 3] ++ teardown_altscreen ++ teardown_pen_reset :=
+  ⟨_, _, rfl, rfl, by decide, by decide, by decide, by decide, by decide⟩
+
+example : ∃ st', step { init with bufLen := 5 } .setFunc = .ok st' ∧ st'.buf = [] ∧ stream st'.out = startBytes ∧
+    st'.out.length = 15 := ⟨_, rfl, by decide, by decide, by decide⟩
+
 /-- `tickit_term_pause` writes the driver's teardown bytes but does *not* flush (`term_pause_flushes` and
     `driver_teardown_flushes` are read from the source; both are `false` in the tree as found): with a buffer,
     the mode-reset sequences can still be pending when the caller stops the process (`examples/demo-pen.c`
@@ -263,6 +288,9 @@ theorem resize_when_idle (st st' : State) (n : Nat) (hidle : st.buf = []) (h : s
   injection h with h; subst h
   refine ⟨by simp [setOutputBuffer, hidle], rfl, ?_⟩
   unfold WF setOutputBuffer; simp
+
+example : ∃ st', step { (fresh 4 true false {}) with out := [.data .func [1, 2, 3, 4]] } (.setbuf 9) = .ok st' ∧
+    st'.bufLen = 9 ∧ stream st'.out = [1, 2, 3, 4] := ⟨_, rfl, rfl, by decide⟩
 
 /-- … and the proviso is needed: `tickit_term_set_output_buffer` drops whatever is pending
     (`outbuffer_cur = 0` without a flush).  Two bytes written, buffer resized, flushed: nothing is ever
